@@ -41,7 +41,7 @@ class Check(Property):
         P = regs.pools()
         rng = self.rng
         out = []
-        for i in range(110 if self.tier == "quick" else 4000):
+        for i in range(110 if self.tier == "quick" else 700):
             items = P.compound(rng, P.positive, nmax=3, spell=False)
             if rng.random() < 0.5:
                 items = {(rng.choice(PREFIXES) + k if rng.random() < 0.6 and (rng.choice(PREFIXES) + k) not in P.proj.unit_by_key else k): v
